@@ -21,6 +21,7 @@ CONSTANTS
   UseBuild = FALSE
   NChanges = {2}
   QuietW2 = FALSE
+  UseFarTtl = FALSE
   UseDiverge = FALSE
   UseAdv = FALSE
 SPECIFICATION Spec
